@@ -24,7 +24,7 @@ NOT_DECIDED = "Selection of the maximum over runtime priorities, priority parsin
 
 
 def check(run):
-    for cfg in ("A", "B"):
+    for cfg in run.cfgs("A", "B"):
         F = run.facts(cfg)
         run.guard("C13.1.permission-kind-gate", cfg, lambda: rule_gate(run, F, cfg))
         run.guard("C13.2.independent-of-blocking", cfg, lambda: rule_independent(run, F, cfg))
